@@ -50,14 +50,19 @@ func (t *RTree) RangeSearch(box Box, callback func(recordID int) error) error {
 		return nil
 	}
 	var recurse func(*node) error
+	var stopped bool
 	recurse = func(n *node) error {
 		for i := 0; i < n.numEntries; i++ {
+			if stopped {
+				return nil
+			}
 			entry := n.entries[i]
 			if !overlap(entry.box, box) {
 				continue
 			}
 			if entry.child == nil {
 				if err := callback(entry.recordID); errors.Is(err, Stop) {
+					stopped = true
 					return nil
 				} else if err != nil {
 					return err
